@@ -34,6 +34,7 @@ def permutation_word(S):
     from checks import C19
     C19.rule_pub1(S)
     C19.rule_rd1(S)
+    C19.rule_idx(S)
 
 
 def key_order(S):
